@@ -453,6 +453,9 @@ class Consumer(object):
         # Are we waiting to retry a commit?
         if self._commit_call:
             self._commit_call.cancel()
+            # Don't keep the cancelled call around: after a restart the
+            # next stop() would try to cancel it again.
+            self._commit_call = None
         # Do we have an auto-commit looping call?
         if self._commit_looper is not None:
             self._commit_looper.stop()
